@@ -34,6 +34,7 @@ type world struct {
 	slow    []slowUpload // pending slow uploads (second halves)
 	nslow   int
 	callers []int // caller numbers of the invocations submitted so far
+	traceAs map[int]int // caller -> caller whose trace header it sends (astrace=)
 }
 
 type slowUpload struct {
@@ -63,9 +64,19 @@ func traceFor(c int) string {
 
 // traceClass: "trace<c>" if the value is exactly what caller c sent ("trace" for caller 0), else the
 // value itself marked as altered
+// traceOf is the trace header caller c sends: its own, or — `astrace=<k>` — the one caller k sent
+// (two callers may send the same header; request ids must differ all the same)
+func (w *world) traceOf(c int) string {
+	if k, ok := w.traceAs[c]; ok {
+		return traceFor(k)
+	}
+	return traceFor(c)
+}
+
 func (w *world) traceClass(v string) string {
-	for _, c := range w.callers {
-		if v == traceFor(c) {
+	for i := len(w.callers) - 1; i >= 0; i-- { // the latest caller that sent this header
+		c := w.callers[i]
+		if v == w.traceOf(c) {
 			if c == 0 {
 				return "trace"
 			}
@@ -166,8 +177,17 @@ func (w *world) apply(ws []string) bool {
 		if size > interop.MaxPayloadSize {
 			w.extra = []string{"h=" + hashOf(pl[:interop.MaxPayloadSize])}
 		}
+		for _, a := range ws[4:] {
+			if strings.HasPrefix(a, "astrace=") {
+				k, _ := strconv.Atoi(a[8:])
+				if w.traceAs == nil {
+					w.traceAs = map[int]int{}
+				}
+				w.traceAs[c] = k
+			}
+		}
 		w.callers = append(w.callers, c)
-		s.Invoke(c, pl, traceFor(c))
+		s.Invoke(c, pl, w.traceOf(c))
 	case "init":
 		s.Init()
 	case "hook": // hook <point> <delay-ms>   (0 disarms)
@@ -233,6 +253,12 @@ func (w *world) apply(ws []string) bool {
 				switch {
 				case a == "acct":
 					hdr["Lambda-Extension-Accept-Feature"] = "accountId"
+				case a == "acct2": // the usual HTTP list style
+					hdr["Lambda-Extension-Accept-Feature"] = "otherFeature, accountId"
+				case a == "acct3":
+					hdr["Lambda-Extension-Accept-Feature"] = "accountId , otherFeature"
+				case a == "acct4":
+					hdr["Lambda-Extension-Accept-Feature"] = "x,accountId,"
 				case a == "noname":
 					delete(hdr, "Lambda-Extension-Name")
 				case a == "badjson":
@@ -462,6 +488,7 @@ func (w *world) apply(ws []string) bool {
 		time.Sleep(time.Duration(ms) * time.Millisecond)
 	case "reset": // reset <reason>
 		reason := ws[1]
+		s.L.Add("#reset start budget=2000")
 		go func() {
 			_, err := s.Srv.Reset(reason, 2000)
 			s.L.Add("reset done err=%v", err != nil)
